@@ -158,10 +158,24 @@ class Scn:
                 if any((before[k] or b'') != (after[k] or b'') for k in before):
                     return self.bad('prehash_parity', 'sync -h met a decoy in the hashing phase but parity bytes changed')
                 # nothing may have become BLK in this run
-            # a second attempt must not accept it either (the provisional hashes survived the refused sync)
-            r, st = self.sync()
+            # a second attempt must not accept it either: the provisional hashes survived the refused sync, now LOADED from the
+            # content file (the COPY flag of the first scan is gone); with -h again, and another change pending in other
+            # stripes, still no parity byte may change
+            again_h = variant == 'prehash'
+            if again_h:
+                w.write(td, 'zzz_pending', self.rng.randbytes(self.rng.choice(MSIZES)))
+                st_l = w.content()
+                fl = self.entry(st_l, td, tsub)
+                if fl is not None and all(b[0] == 'REP' for b in fl['blocks']):
+                    self.count('loaded_rep_prehash')
+                before = a.snapshot_all()['parity']
+            r, st = self.sync(prehash=again_h)
             if r is None or not self.judge(st, 'the second sync'):
                 return
+            if again_h:
+                after = a.snapshot_all()['parity']
+                if any((before[k] or b'') != (after[k] or b'') for k in before):
+                    return self.bad('prehash_parity_2', 'a second sync -h met the decoy (provisional hashes loaded from the content file) in the hashing phase, exit %d, but parity bytes changed' % r.rc)
             f = self.entry(st, td, tsub)
             if r.rc == 0 or f is None or any(b[0] == 'BLK' for b in f['blocks']):
                 return self.bad('decoy_accepted_2', 'the second sync exits %d and records %s' % (r.rc, f and [b[0] for b in f['blocks']]))
